@@ -31,7 +31,8 @@ add('KF-send-failed-residue', ['C10'], ['slots_not_all_free_at_quiescence'],
     {'send_failed': True, 'lane': 'sim'},
     'apply_async with put-locks whose task could not be sent: the slot taken at submission is never given back (TaskHandler has no access to the semaphore)')
 
-add('KF-close-stops-recycling', ['C07'], ['result_missing_or_wrong_after_join', 'join_slow', 'join_hung'],
+add('KF-close-stops-recycling', ['C07'], ['result_missing_or_wrong_after_join', 'join_slow', 'join_hung',
+                                          'worker_process_left_after_join'],
     {'recycling': True, 'pending_at_close': True, 'lane': 'real'},
     'close() with maxtasksperchild while more work is queued than the live workers\' remaining quota: the supervisor stops at close() (its loop runs only while the pool is in RUN state), recycled workers are not replaced, the queued jobs never run and join() gives up 5 s after the last worker left')
 
